@@ -9,7 +9,10 @@
 
    The model follows the code as repaired by the fix: commits d5d0029 (errorChan never closed),
    da46feb (trigger listener spawns the shutdown), ddc3dd2/8eb6141 (gate), 977a5ea (SIGHUP),
-   aa7dec7 (monitor first value), 00876a0 (launch gate; only started runnables are stopped). *)
+   aa7dec7 (monitor first value), 00876a0 (launch gate; only started runnables are stopped),
+   4585550 (finals), and the repairs for C03 (a cancelled readiness wait still returns a queued
+   failure: LGateCtx) and C06 (startRunnable broadcasts the map after storing the initial state:
+   LRunCall). *)
 From Coq Require Import List NArith Bool Arith.
 Import ListNotations.
 
@@ -636,7 +639,11 @@ Definition step0 (c : config) (s : state) (l : label) : option state :=
   | LGateCtx i =>
     match main s with
     | MGate j => if Nat.eqb i j && ctx_done s && negb (polling (aux s))
-                 then Some (set_main s (after_launch c i)) else None
+                 then match errq s with
+                      | e :: q => Some (set_main (set_errq s q) (MExit (ResErr e)))  (* pendingError() *)
+                      | [] => Some (set_main s (after_launch c i))
+                      end
+                 else None
     | _ => None
     end
   | LReapErr =>
@@ -678,7 +685,12 @@ Definition step0 (c : config) (s : state) (l : label) : option state :=
   | LRunCall i =>
     match rn_at s i with
     | RnLaunched => if Nat.ltb i n
-                    then Some (with_hist (store_state c (set_rn s i RnRunning) i) (ERunCall i))
+                    then Some (with_hist
+                                 (* startRunnable stores the initial state and broadcasts the new map *)
+                                 (if stateable (spec c i)
+                                  then set_smap (set_rn s i RnRunning) (upd (smap s) i (Some (cur_at s i)))
+                                                (broadcast (upd (smap s) i (Some (cur_at s i))) (subs s))
+                                  else set_rn s i RnRunning) (ERunCall i))
                     else None
     | _ => None
     end
